@@ -5,6 +5,8 @@ package scen
 
 import (
 	"bytes"
+	"crypto/md5"
+	"encoding/binary"
 	"fmt"
 	"hash/crc32"
 	"os"
@@ -717,6 +719,27 @@ func GenFiles(t *rapid.T, S, maxFiles, maxBytes, maxSlices int) []FileSpec {
 					}
 					fs.Kind, fs.Seed = "share16k", src.Seed+3
 				}
+				if rapid.IntRange(0, 2).Draw(t, "samebase") == 0 {
+					// the copy carries the same base name in another directory (a flattened or an archived copy)
+					cand := filepath.Base(src.Name)
+					if cand == src.Name {
+						cand = "old copies/" + cand
+					}
+					free := true
+					for _, nm := range names {
+						if nm == cand {
+							free = false
+						}
+					}
+					for _, o := range out {
+						if o.Name == cand {
+							free = false
+						}
+					}
+					if free {
+						fs.Name = cand
+					}
+				}
 			}
 		}
 		out = append(out, fs)
@@ -844,3 +867,39 @@ func genBoundaryOff(maxLen, S int) *rapid.Generator[int] {
 var IndexNames = []string{"", "", "", "", "my set.par2", "arch[1].par2", "x.y.par2", "q?.par2", "set.PAR2.par2", ".hidden.par2", ".par2", "..par2", "...par2"}
 
 var DirNames = []string{"", "", "", "arch.par2.d", "old.parity", "x.par", "my.par2", "set.par2.vol", "d.p01"}
+
+var idTwinCache = map[string][][2]string{}
+
+// IDTwinFiles returns 2*pairs files with identical content whose names were searched (birthday search over generated
+// names) so that the PAR2 file IDs of each pair - MD5(16k hash, length, name) - agree in their most significant 32 bits
+// (bytes 12..15; the specification orders IDs as 128-bit little-endian numbers).  Ordering such a pair correctly needs
+// the lower bytes of the comparison.
+func IDTwinFiles(size int, seed uint64, pairs int) []FileSpec {
+	proto := FileSpec{Name: "x", Size: size, Kind: "random", Seed: seed}
+	content := proto.Content(4)
+	key := fmt.Sprintf("%d/%d", size, seed)
+	tw, ok := idTwinCache[key]
+	if !ok {
+		h16 := md5.Sum(content)
+		if len(content) >= 16384 {
+			h16 = md5.Sum(content[:16384])
+		}
+		seen := map[uint32]int{}
+		for i := 0; i < 1<<20 && len(tw) < 6; i++ {
+			name := fmt.Sprintf("tw/n%06d.bin", i)
+			id := par2ref.FileID(h16, uint64(len(content)), []byte(name))
+			k := binary.LittleEndian.Uint32(id[12:])
+			if j, dup := seen[k]; dup {
+				tw = append(tw, [2]string{fmt.Sprintf("tw/n%06d.bin", j), name})
+			} else {
+				seen[k] = i
+			}
+		}
+		idTwinCache[key] = tw
+	}
+	var out []FileSpec
+	for i := 0; i < pairs && i < len(tw); i++ {
+		out = append(out, FileSpec{Name: tw[i][0], Size: size, Kind: "random", Seed: seed}, FileSpec{Name: tw[i][1], Size: size, Kind: "random", Seed: seed})
+	}
+	return out
+}
